@@ -42,3 +42,6 @@ reg("C06", "mirror")
 reg("C01", "mirror")
 reg("C01", "mirror", fn="check_dirstate")
 reg("C03", "mirror", fn="check_dirstate")
+
+# C16 Match accessors
+reg("C16", "names")
